@@ -211,6 +211,22 @@ func ext4PrefixScenarios(cfg fatCfg, oracle string, depth int) []*fatScen {
 	if oracle != "model" {
 		out = append(out, heldHandleScenario(cfg, oracle, depth))
 	}
+	// leafsplit: a file whose extent-tree leaf is exactly full (84 extents with 1 KiB blocks; 4 in the inode before that), on
+	// a volume with no free block; the letters free one block and append again: the append needs a data block AND a
+	// second leaf block, is refused - and must leave the file as it was
+	if cfg.E4SectorsPerBlock == 2 && cfg.Size <= 1<<20 {
+		var pl []fsOp
+		for i := 0; i < 84; i++ {
+			pl = append(pl, fsOp{Kind: "append", Path: "x.bin", Len: "c"}, fsOp{Kind: "append", Path: "y.bin", Len: "c"})
+		}
+		pl = append(pl, W("one.bin", "0", "c"), W("two.bin", "0", "2c"), fsOp{Kind: "fillgeo", Path: "z"})
+		ll := []fsOp{{Kind: "remove", Path: "one.bin"}, {Kind: "remove", Path: "two.bin"}, {Kind: "append", Path: "x.bin", Len: "c"}, {Kind: "append", Path: "y.bin", Len: "c"}, {Kind: "readpartial", Path: "x.bin"}, {Kind: "reopen"}}
+		d := depth + 1
+		if oracle == "e2fsck" {
+			d = 2
+		}
+		out = append(out, &fatScen{Name: "leafsplit", Cfg: cfg, Prefix: pl, Letters: ll, Depth: d, Oracle: oracle})
+	}
 	// enospc: fill the volume
 	lfill := []fsOp{W("F1", "0", "p40"), W("F1", "0", "p70"), W("F2", "0", "p40"), W("F2", "0", "p70"), {Kind: "remove", Path: "F1"}, {Kind: "remove", Path: "F2"}, {Kind: "mkdir", Path: "DIR"}, {Kind: "create", Path: "DIR/x"}, {Kind: "reopen"}}
 	out = append(out, &fatScen{Name: "enospc", Cfg: cfg, Letters: lfill, Depth: depth, Oracle: oracle})
@@ -432,13 +448,20 @@ func ext4MatrixScens(quick bool) []*fatScen {
 			}
 		}
 	}
-	// group-count sweep: volumes whose number of block groups is exactly, one below and one above a whole number of
-	// group-descriptor blocks (16 descriptors of 64 bytes or 32 of 32 bytes per 1 KiB block), Create plus one operation
-	for _, groups := range []int64{15, 16, 17, 27, 31, 32, 33, 64} {
+	out = append(out, ext4GroupSweep("e2fsck", quick, letters)...)
+	return out
+}
+
+// ext4GroupSweep: Create (plus one operation) on volumes of 256-block groups whose number of groups is exactly, one below
+// and one above a whole number of group-descriptor blocks (16 descriptors of 64 bytes or 32 of 32 bytes per 1 KiB block), and
+// whose last group is 0..16 blocks long - too short for its own bitmaps and inode table; group 27 also carries a backup of
+// the superblock and the descriptors; 9, 17 and 25 groups make the short last group the first of a flex group. Create must
+// refuse such a size or produce a clean image, and must not write behind the range it was given.
+func ext4GroupSweep(oracle string, quick bool, letters []fsOp) []*fatScen {
+	var out []*fatScen
+	for _, groups := range []int64{8, 15, 16, 17, 24, 27, 31, 32, 33, 64} {
 		extras := []int64{0, 1 << 10}
-		if groups == 16 || groups == 27 {
-			// ... and a last group of 1..14 blocks: too short for its own bitmaps and inode table (group 27 also carries a
-			// backup of the superblock and the descriptors); Create must refuse the size or produce a clean image
+		if groups == 16 || groups == 27 || groups == 8 || groups == 24 {
 			extras = []int64{0, 1 << 10, 2 << 10, 3 << 10, 9 << 10, 10 << 10, 11 << 10, 12 << 10, 13 << 10, 14 << 10}
 			if !quick {
 				extras = nil
@@ -452,8 +475,11 @@ func ext4MatrixScens(quick bool) []*fatScen {
 				if quick && (groups == 15 || groups == 31 || groups == 64) && extra != 0 {
 					continue
 				}
+				if quick && (groups == 8 || groups == 24) && f != "bpg=256" {
+					continue
+				}
 				c := fatCfg{Type: 4, Size: groups*256<<10 + extra, Start: 4096, E4SectorsPerBlock: 2, E4Feat: f}
-				out = append(out, &fatScen{Name: "groups[" + f + "]", Cfg: c, Letters: letters, Depth: 1, Oracle: "e2fsck"})
+				out = append(out, &fatScen{Name: "groups[" + f + "]", Cfg: c, Letters: letters, Depth: 1, Oracle: oracle})
 			}
 		}
 	}
